@@ -297,6 +297,7 @@ class JournalStorage(BaseStorage):
     def get_trial_id_from_study_id_trial_number(self, study_id: int, trial_number: int) -> int:
         with self._thread_lock:
             self._sync_with_backend()
+            self._replay_result.get_study(study_id)  # Raises `KeyError` for a deleted study.
             if len(self._replay_result._study_id_to_trial_ids[study_id]) <= trial_number:
                 raise KeyError(
                     "No trial with trial number {} exists in study with study_id {}.".format(
@@ -427,8 +428,12 @@ class JournalStorageReplayResult:
     def get_all_studies(self) -> list[FrozenStudy]:
         return list(self._studies.values())
 
+    def _trial_exists(self, trial_id: int) -> bool:
+        # Trials of a deleted study stay in `_trials` (trial IDs are allocated by its size), but they are gone for every caller.
+        return trial_id in self._trials and self._trial_id_to_study_id[trial_id] in self._studies
+
     def get_trial(self, trial_id: int) -> FrozenTrial:
-        if trial_id not in self._trials:
+        if not self._trial_exists(trial_id):
             raise KeyError(NOT_FOUND_MSG)
         return self._trials[trial_id]
 
@@ -648,7 +653,7 @@ class JournalStorageReplayResult:
             self._trials[trial_id] = trial
 
     def _trial_exists_and_updatable(self, trial_id: int, log: dict[str, Any]) -> bool:
-        if trial_id not in self._trials:
+        if not self._trial_exists(trial_id):
             if self._is_issued_by_this_worker(log):
                 raise KeyError(NOT_FOUND_MSG)
             return False
